@@ -142,6 +142,24 @@ def cases(ctx):
                 for axis in (0, 1):
                     for sk in (True, False):
                         yield mk_case(spec, fn, axis, sk, rng, all_layouts=True)
+    # one-row frames whose row dtype is object while a column of its own holds nothing but a missing cell: the
+    # size-one shortcut must still skip it under skipna
+    for dts in (['float64', 'object', 'int64'], ['object', 'float64'], ['float64', 'object'], ['float64', 'float64', 'object'], ['object', 'object']):
+        for miss in range(len(dts)):
+            vals = []
+            for j, dt in enumerate(dts):
+                if j == miss:
+                    vals.append('nan' if dt == 'float64' else rng.choice(['N', 'nan']))
+                else:
+                    vals.append(rand_cell(rng, dt, 0.0))
+            spec = {'index': {'kind': 'flat', 'labels': [tok('p')]},
+                    'columns': {'kind': 'flat', 'labels': [tok(x) for x in 'ABC'[:len(dts)]]},
+                    'cols': [{'dt': dt, 'v': [v]} for dt, v in zip(dts, vals)],
+                    'layout': gen.canonical_layout(dts), 'rows': 1}
+            for fn in FNS_RED + FNS_ARG + FNS_CUM:
+                for axis in (0, 1):
+                    for sk in (True, False):
+                        yield mk_case(spec, fn, axis, sk, rng, all_layouts=True)
     for m in (0,):
         for n in (0, 2):
             spec = {'index': {'kind': 'flat', 'labels': [tok(x) for x in 'pq'[:n]]}, 'columns': {'kind': 'flat', 'labels': []},
